@@ -382,7 +382,7 @@ impl Rq {
 }
 
 fn arb_rq() -> impl Strategy<Value = Rq> {
-    prop_oneof![Just(Rq::Require), Just(Rq::Allow), Just(Rq::Omit)]
+    prop_oneof![3 => Just(Rq::Require), 4 => Just(Rq::Allow), 2 => Just(Rq::Omit)]
 }
 
 #[derive(Clone, Copy, Debug, PartialEq, Eq)]
@@ -1645,7 +1645,8 @@ fn check_notes(c: &NoteCase) -> CaseResult {
                 (j, a)
             } else {
                 let request = UAR::unsafe_custom(RR::Omit, RR::Require, RR::Allow);
-                let (ua, j) = uivk.find_address(j0, request).map_err(|e| Fail::new("find-address-error-but-valid-index-exists", format!("find_address({j0:?}, sapling required) = {e:?}")))?;
+                // (the last indices of the space may all be Sapling-invalid: start over from 0 then)
+                let (ua, j) = uivk.find_address(j0, request).or_else(|_| uivk.find_address(DiversifierIndex::new(), request)).map_err(|e| Fail::new("find-address-error-but-valid-index-exists", format!("find_address({j0:?}, sapling required) = {e:?}")))?;
                 let a = *ua.sapling().ok_or_else(|| Fail::new("address-receivers-differ", "required Sapling receiver missing".to_string()))?;
                 vensure!(Some(a) == rk.dfvk.address(j), "sapling-address-differs", "Sapling receiver at {j:?} differs from the reference");
                 (j, a)
@@ -1813,9 +1814,9 @@ fn arb_tcase() -> impl Strategy<Value = TCase> {
         ],
         prop_oneof![1 => Just(0u8), 4 => 1u8..6],
         arb_req(),
-        arb_comp(),
+        prop_oneof![3 => arb_comp().prop_map(|c| Comp { t: true, ..c }), 1 => arb_comp()],
         any::<bool>(),
-        prop_oneof![5 => Just(true), 1 => Just(false)],
+        prop_oneof![7 => Just(true), 1 => Just(false)],
     )
         .prop_map(|(ks, scope, custom_scope, start, len, req, comp, require_key, pass_ufvk)| TCase { ks, scope, custom_scope, start, len, req, comp, require_key, pass_ufvk })
 }
@@ -1923,6 +1924,7 @@ fn check_transparent(ctx: &Ctx, c: &TCase) -> CaseResult {
             }
             let hard_error = c.scope == 0 && per_idx.iter().any(|(_, a)| matches!(a, Err(e) if !matches!(e, AGE::ShieldedReceiverRequired)));
             match &r {
+                Err(_) if range_defect => {}
                 Err(e) => vensure!(hard_error, "address-list-error", "generate_address_list({scope:?}, {start}..{end}) = {e:?} although every address can be generated"),
                 Ok(list) if !range_defect => {
                     vensure!(!hard_error, "address-list-ignores-error", "generate_address_list succeeded although address() fails with a non-fallback error in the range");
@@ -2084,7 +2086,7 @@ fn main() {
             )
                 .prop_map(|(ks, pool, internal, j, value, rand, memo_kind, with_ovk)| NoteCase { ks, pool, internal, j, value, rand, memo_kind, with_ovk })
         },
-        tier.pick(3_000, 200_000),
+        tier.pick(2_400, 200_000),
         check_notes,
     );
     {
